@@ -11,12 +11,12 @@ Import ListNotations.
 Ltac name_gkeys :=
   change [100; 105; 114; 101; 99; 116; 111; 114; 121]%N with k_directory;
   change [102; 105; 108; 101; 110; 97; 109; 101; 115]%N with k_filenames;
-  change [110; 97; 109; 101]%N with k_name;
   change [118; 97; 108; 117; 101; 115]%N with k_values;
   change [112; 114; 111; 98]%N with k_prob;
-  change [118; 101; 114; 115; 105; 111; 110]%N with k_version;
   change [114; 117; 108; 101; 95; 118; 101; 114; 115; 105; 111; 110]%N with k_rule_version;
+  change [118; 101; 114; 115; 105; 111; 110]%N with k_version;
   change [114; 117; 108; 101; 95; 110; 97; 109; 101]%N with k_rule_name;
+  change [110; 97; 109; 101]%N with k_name;
   change [117; 117; 105; 100]%N with k_uuid;
   change [101; 110; 99; 111; 100; 105; 110; 103]%N with k_encoding;
   change [84; 82; 65; 73; 78; 73; 78; 71; 95; 80; 82; 79; 71; 82; 65; 77; 95; 68; 69; 84; 65; 73; 76; 83]%N with k_program_details;
@@ -216,4 +216,180 @@ Proof.
     file_stage. destruct b; cbn [negb]; reflexivity.
 Qed.
 
+
+(* ---- _load_config *)
+Theorem load_config_eq (ri : list (val * val)) base ver :
+  dfind (VStr k_version) ri = Some (VStr ver) ->
+  py_load_config fo W (VDict ri) (VStr base) VCfgNew = load_config_model fo W ri base ver.
+Proof.
+  intros Hver. cbv beta zeta delta [py_load_config]. name_gkeys. unfold load_config_model.
+  cbn [dy_path_join strs_of option_map xbind dy_cfg_read_file]. unfold pstr in *.
+  match goal with |- _ = match ?o with _ => _ end => destruct o as [c|e] end; cbn [xthen xbind]; [|reflexivity].
+  cbn [dy_cfg_get]. unfold pstr in *.
+  match goal with |- _ = match ?o with _ => _ end => destruct o as [rv|e] end; cbn [xthen xbind]; [|reflexivity].
+  cbn [dy_setitem is_key xbind].
+  erewrite getitem_dict_found by (try reflexivity; rewrite dfind_dput_other by reflexivity; exact Hver).
+  cbn [xbind dy_split]. destruct (split_stem ver) as (r1 & E1). rewrite E1. cbn [map]. rewrite getitem_0. cbn [xbind].
+  erewrite getitem_dict_found by (try reflexivity; apply dfind_dput_same; reflexivity).
+  cbn [xbind dy_split]. destruct (split_stem rv) as (r2 & E2). rewrite E2. cbn [map]. rewrite getitem_0.
+  cbn [xbind dy_gt dy_lt].
+  destruct (str_ltb (stem rv) (stem ver)); [reflexivity|].
+  cbn [dy_cfg_get]. unfold pstr in *.
+  match goal with |- _ = match ?o with _ => _ end => destruct o as [enc|e] end; cbn [xthen xbind]; [|reflexivity].
+  cbn [dy_setitem is_key xbind dy_cfg_get]. unfold pstr in *.
+  match goal with |- _ = match ?o with _ => _ end => destruct o as [u|e] end; cbn [xthen xbind]; reflexivity.
+Qed.
+
+Lemma load_config_shape ri base ver :
+  (exists ri' cfg b, load_config_model fo W ri base ver = XDone (VDict ri', cfg, VBool b) /\
+                     (b = true -> exists c, cfg = VCfg c)) \/
+  (exists e, load_config_model fo W ri base ver = XFail e).
+Proof.
+  unfold load_config_model, config_fail.
+  repeat match goal with
+         | |- context [match ?o with XDone _ => _ | XFail _ => _ end] => destruct o
+         | |- context [if ?b then _ else _] => destruct b
+         end;
+    first [ right; eexists; reflexivity
+          | left; eexists _, _, _; split; [reflexivity | intros H; try discriminate H; eexists; reflexivity] ].
+Qed.
+
+(* ---- load_grammar *)
+Theorem load_grammar_eq (rn base ver sb sc folder : val) :
+  py_load_grammar fo W rn base ver sb sc folder =
+  load_grammar_seq fo W (py_load_config fo W) (py_load_terminals fo W) rn base ver sb sc folder.
+Proof.
+  cbv beta zeta delta [py_load_grammar]. name_gkeys. unfold load_grammar_seq.
+  destruct (py_load_config fo W (VDict [(VStr k_rule_name, rn); (VStr k_version, ver)]) base VCfgNew) as [[[o1 o2] t3]|e];
+    cbn [xbind xthen fst snd]; [|reflexivity].
+  destruct (dy_truth t3) as [b1|e]; cbn [xbind xthen]; [|reflexivity]. destruct b1; cbn [negb]; [|reflexivity].
+  destruct (py_load_terminals fo W o1 (VDict []) base o2 sc) as [[o5 t6]|e]; cbn [xbind xthen fst snd]; [|reflexivity].
+  destruct (dy_truth t6) as [b2|e]; cbn [xbind xthen]; [|reflexivity]. destruct b2; cbn [negb]; [|reflexivity].
+  destruct (call_load_base_structures (w_load_base_structures W) (VList []) base sb folder) as [[o8 t9]|e];
+    cbn [xbind xthen fst snd]; [|reflexivity].
+  destruct (dy_truth t9) as [b3|e]; cbn [xbind xthen]; [|reflexivity]. destruct b3; reflexivity.
+Qed.
+
 End Guesser.
+
+(* ================================================================ the scorer: lib_scorer/grammar_io.py *)
+
+Ltac name_akeys :=
+  change [99; 111; 117; 110; 116; 95; 121; 101; 97; 114; 115]%N with a_count_years;
+  change [99; 111; 117; 110; 116; 95; 99; 111; 110; 116; 101; 120; 116; 95; 115; 101; 110; 115; 105; 116; 105; 118; 101]%N
+    with a_count_context_sensitive;
+  change [99; 111; 117; 110; 116; 95; 98; 97; 115; 101; 95; 115; 116; 114; 117; 99; 116; 117; 114; 101; 115]%N
+    with a_count_base_structures;
+  change [99; 111; 117; 110; 116; 95; 107; 101; 121; 98; 111; 97; 114; 100]%N with a_count_keyboard;
+  change [99; 111; 117; 110; 116; 95; 97; 108; 112; 104; 97; 95; 109; 97; 115; 107; 115]%N with a_count_alpha_masks;
+  change [99; 111; 117; 110; 116; 95; 97; 108; 112; 104; 97]%N with a_count_alpha;
+  change [99; 111; 117; 110; 116; 95; 100; 105; 103; 105; 116; 115]%N with a_count_digits;
+  change [99; 111; 117; 110; 116; 95; 111; 116; 104; 101; 114]%N with a_count_other.
+
+Section Scorer.
+Context (fo : fops) {C SS : Type} (W : world fo C SS).
+Notation val := (pyval (F fo) C SS).
+
+Lemma scorer_load_from_multiple_files_eq (s : SS) dir name files base enc (gc : list (val * val)) :
+  sect_wf fo W s dir name files ->
+  py_scorer_load_from_multiple_files fo W (VDict gc) (VSect s) (VStr base) (VStr enc) =
+  smulti_files fo W base dir enc files gc.
+Proof.
+  intros (Hd & Hn & text & Ht & Hj). cbv beta zeta delta [py_scorer_load_from_multiple_files]. name_gkeys.
+  cbn [dy_get1]. rewrite Hd, Ht. cbn [xthen xbind dy_json_loads]. rewrite Hj.
+  cbn [xbind dy_iter].
+  clear Hj Ht. revert gc. induction files as [|file r IH]; intros gc; cbn [map rt_for smulti_files]; [reflexivity|].
+  cbn [dy_path_join strs_of option_map xbind xthen dy_split].
+  destruct (split_stem file) as (rest & Es). rewrite Es. cbn [map]. rewrite getitem_0.
+  cbn [xbind dy_int x_opt xthen]. unfold smulti_step.
+  destruct (w_pint W (stem file)) as [n|]; cbn [x_opt xthen xbind]; [|reflexivity].
+  cbn [dy_setitem is_key xbind].
+  erewrite getitem_dict_found by (try reflexivity; apply dfind_dput_same; reflexivity).
+  cbn [xbind]. unfold call_scorer_load_from_file. cbn [counter_of_val counter_of_vals]. unfold pstr in *.
+  match goal with |- context [w_scorer_load_from_file W ?a ?b ?c] => destruct (w_scorer_load_from_file W a b c) as [[d b0]|e] end;
+    cbn [x_of_outcome xthen xbind fst snd]; [|reflexivity].
+  erewrite upd_item_found by (try reflexivity; apply dfind_dput_same; reflexivity).
+  cbn [xthen xbind dy_truth]. rewrite dput_dput_same by reflexivity.
+  destruct b0; cbn [negb]; [apply IH | reflexivity].
+Qed.
+
+Lemma smulti_files_shape base dir enc files (gc : list (val * val)) :
+  (exists g' b, smulti_files fo W base dir enc files gc = XDone (VDict g', VBool b)) \/
+  (exists e, smulti_files fo W base dir enc files gc = XFail e).
+Proof.
+  revert gc. induction files as [|f r IH]; intros gc; cbn [smulti_files]; [left; now exists gc, true|].
+  unfold smulti_step. destruct (w_pint W (stem f)) as [n|]; [|right; now eexists].
+  destruct (w_scorer_load_from_file W [] (w_path_join W [base; dir; f]) enc) as [[d [|]]|e].
+  - apply IH.
+  - left. eexists _, false. reflexivity.
+  - right. now eexists.
+Qed.
+
+
+(* the attributes PCFGPasswordScorer.__init__ gives the object that load_grammar fills (empty dicts /
+   Counters), in the order of their assignment *)
+Definition scorer_obj0 : list (pstr * val) :=
+  [ (a_count_keyboard, VDict []); (a_count_years, VDict []); (a_count_context_sensitive, VDict []);
+    (a_count_alpha, VDict []); (a_count_alpha_masks, VDict []); (a_count_digits, VDict []);
+    (a_count_other, VDict []); (a_count_base_structures, VDict []) ].
+
+Definition ssection_ok (c : C) (sec : pstr) (df : pstr * list pstr) : Prop :=
+  exists s name, cp_section (w_cfg W) c sec = XDone s /\ sect_wf fo W s (fst df) name (snd df).
+
+Definition sviews_ok (c : C) (v : sviews) : Prop :=
+  ssection_ok c k_BASE_K (sv_K v) /\ ssection_ok c k_BASE_A (sv_A v) /\ ssection_ok c k_CAPITALIZATION (sv_CAP v) /\
+  ssection_ok c k_BASE_D (sv_D v) /\ ssection_ok c k_BASE_O (sv_O v).
+
+(* no `cbn` on the whole goal here: every step is a rewrite with a small lemma (cheap to re-check) *)
+Ltac sstep := first [rewrite xbind_done | rewrite xthen_done]; cbv beta iota.
+
+Ltac sfile_stage :=
+  match goal with |- context [dy_path_join ?pj [VStr ?a; VStr ?b; VStr ?c]] =>
+    rewrite (path_join_strs pj [a; b; c] : dy_path_join pj [VStr a; VStr b; VStr c] = _) end; sstep;
+  erewrite getattr_found by reflexivity; sstep;
+  try (erewrite getattr_found by reflexivity; sstep);
+  rewrite call_scorer_empty; unfold sfile_load at 1; unfold pstr in *;
+  match goal with |- context [w_scorer_load_from_file W ?a ?b ?c] =>
+    let d := fresh "d" in let b1 := fresh "b" in let e1 := fresh "e" in
+    destruct (w_scorer_load_from_file W a b c) as [[d b1]|e1];
+    [ sstep; erewrite upd_attr_set by reflexivity; sstep; rewrite truth_bool; sstep;
+      destruct b1; cbv beta iota delta [negb]; [|reflexivity]
+    | rewrite xbind_fail; reflexivity ]
+  end.
+
+Ltac smulti_stage Hsec :=
+  erewrite getattr_found by reflexivity; sstep;
+  rewrite getitem_cfg;
+  let s := fresh "s" in let nm := fresh "nm" in let Hs := fresh "Hs" in let Hwf := fresh "Hwf" in
+  destruct Hsec as (s & nm & Hs & Hwf); rewrite Hs; sstep; sstep;
+  erewrite getattr_found by reflexivity; sstep;
+  rewrite (scorer_load_from_multiple_files_eq _ _ _ _ _ _ _ Hwf); unfold smulti_load at 1;
+  match goal with |- context [smulti_files fo W ?a ?b ?c ?d ?e] =>
+    let g1 := fresh "g" in let b1 := fresh "b" in let e1 := fresh "e" in let E := fresh "E" in
+    destruct (smulti_files_shape a b c d e) as [(g1 & b1 & E)|(e1 & E)]; rewrite !E;
+    [ sstep; erewrite upd_attr_set by reflexivity; sstep; rewrite truth_bool; sstep;
+      destruct b1; cbv beta iota delta [negb]; [|reflexivity]
+    | rewrite xbind_fail; reflexivity ]
+  end.
+
+Theorem scorer_load_grammar_eq (v : sviews) base :
+  (forall c, cp_read_file (w_cfg W) (w_path_join W [base; n_config_ini]) = XDone c -> sviews_ok c v) ->
+  py_scorer_load_grammar fo W (VObj scorer_obj0) (VStr base) =
+  scorer_grammar_model fo W v scorer_obj0 base.
+Proof.
+  intros Hv. cbv beta zeta delta [py_scorer_load_grammar]. name_gkeys. name_akeys. unfold scorer_grammar_model, sfail.
+  rewrite (path_join_strs (w_path_join W) [base; n_config_ini] : dy_path_join _ [VStr base; VStr n_config_ini] = _).
+  sstep. rewrite cfg_read_file_new. unfold pstr in *.
+  match goal with |- _ = match ?o with _ => _ end => destruct o as [c|e] eqn:Ec end;
+    [sstep; sstep | rewrite xthen_fail, xbind_fail; reflexivity].
+  destruct (Hv c eq_refl) as (HK & HA & HCAP & HD & HO).
+  rewrite cfg_get_str. unfold pstr in *.
+  match goal with |- _ = match ?o with _ => _ end => destruct o as [enc|e] end;
+    [sstep; sstep | rewrite xthen_fail, xbind_fail; reflexivity].
+  rewrite setattr_obj. sstep.
+  sfile_stage. sfile_stage. sfile_stage.
+  smulti_stage HK. smulti_stage HA. smulti_stage HCAP. smulti_stage HD. smulti_stage HO.
+  reflexivity.
+Qed.
+
+End Scorer.
